@@ -39,6 +39,11 @@ def run(chk, tier):
         L.helper_clones(chk, F, 'R15.3.helpers', cfg)
         delegator_runtime(chk, F, 'R15.3', cfg)
         owning_handles(chk, F, 'R15.5', cfg)
+    # R15.8 supertraits of mocked traits that the helper implements by hand (Display / Debug, behind the mock-core feature): a default body
+    # that uses one of them on `self` reaches the mock's own impl of that same trait
+    from props import c20
+    for cfg in (('mocks',) if tier == 'quick' else ('mocks', 'full')):
+        c20.supertrait_forwarders(chk, load(chk, cfg), 'R15.8', cfg)
 
 
 def delegator_runtime(chk, F, rule, cfg):
@@ -100,7 +105,17 @@ def delegator_runtime(chk, F, rule, cfg):
             return mentions(x, lambda y: y[0] == 'ref' and y[1][1][-1:] == (('f', 'default_impl_delegator_cell'),))
         for p in symex.Interp(F).run(fn):
             if p.outcome[0] != 'return':
+                # the cell is a cache that outlives the call and is shared with the &self / &mut self accessors: finding it filled is the
+                # normal case from the second delegation on - it must never be a reason to panic
+                why = [show(d_.value)[:80] for d_ in p.decisions if mentions(d_.value, lambda y: is_call(y, r'OnceCell::(set|try_insert)$') and on_cell(y))]
+                chk.ob(rule, 'Pin receivers: a cell that is already filled is used, never a reason to panic', not why, config=cfg, fn=fn, site='pin:filled-panics',
+                       what='to_delegator panics on the result of filling the cell by hand', found=why, expected='get_or_init / (set | try_insert) with the already-filled case handed on')
                 continue
+            must = [e.data[1] for e in p.calls(r'^core::(option::Option|result::Result)::(unwrap|expect)$')
+                    if e.data[2] and mentions(e.data[2][0], lambda y: is_call(y, r'OnceCell::(set|try_insert)$') and on_cell(y))]
+            chk.ob(rule, 'Pin receivers: a cell that is already filled is used, never a reason to panic', not must, config=cfg, fn=fn, site='pin:filled-panics',
+                   what='to_delegator demands that filling the cell by hand succeeds (%s)' % [m_.rsplit('::', 1)[-1] for m_ in must], found=must,
+                   expected='get_or_init, or set / try_insert with the already-filled case handed on')
             r = strip(p.outcome[1])
             from_cell = mentions(r, lambda x: is_call(x, r'OnceCell::(get_mut|get|get_or_init)$') and on_cell(x))
             init = any(on_cell(e.data[2][0]) for e in p.calls(r'OnceCell::get_or_init$'))
